@@ -189,6 +189,61 @@ def run_V(records, w0, salt):
             got2 = _wrap("V", lambda: jax.vmap(lambda xi: o.condition_on_x(xi[None]).mu)(x))  # [N, R, Dy]
             common.compare_value("C18.V.condition_on_x", name, np.swapaxes(A(got2), 0, 1), want, step=i)
             n += 2
+    n += run_V_components(records, w0, salt)
+    return n
+
+
+def run_V_components(records, w0, salt):
+    """vmap over the *component* axis: build a single-component object from each component's
+    parameters inside vmap, apply the observer, and compare with the eager batched result
+    (vmap(f) vs. stacked f - a batch leak in the eager code shows as a mismatch)."""
+    L = lib()
+    jax, jnp = L["jax"], L["jnp"]
+    n = 0
+    for i, rec in enumerate(records):
+        if rec["op"] != "obs" or rec["a"] not in w0.slots:
+            continue
+        s = w0.slots[rec["a"]]
+        if s.tainted or s.kind not in ("measure", "pdf") or s.R < 2:
+            continue
+        name = rec["name"]
+        o = s.obj
+        cls = type(o)
+        if s.kind == "pdf":
+            params = (o.Sigma, o.mu)
+            mk = lambda S, m: cls(Sigma=S[None], mu=m[None])
+        else:
+            params = (o.Lambda, o.nu, o.ln_beta)
+            mk = lambda Lm, nu, lb: cls(Lambda=Lm[None], nu=nu[None], ln_beta=lb[None])
+        if name in ("log_integral", "log_integral_light", "integral", "entropy"):
+            f = lambda *p: getattr(mk(*p), name)()[0]
+            want = A(getattr(ref.clone(o), name)())
+        elif name == "evaluate_ln" and not rec.get("ew"):
+            x = jnp.asarray(rec["x"])
+            f = lambda *p: mk(*p).evaluate_ln(x)[0]
+            want = A(ref.clone(o).evaluate_ln(x))
+        elif name == "integrate" and not any(np.asarray(v).ndim == (3 if k.endswith("_mat") else 2) for k, v in rec.get("kw", {}).items()):
+            kw = {k: jnp.asarray(v) for k, v in rec.get("kw", {}).items()}
+            f = lambda *p: mk(*p).integrate(rec["key"], **kw)[0]
+            want = A(ref.clone(o).integrate(rec["key"], **kw))
+        elif name == "kl" and rec["q"] in w0.slots and not w0.slots[rec["q"]].tainted:
+            q = w0.slots[rec["q"]].obj
+            if int(q.R) == 1:
+                f = lambda *p: mk(*p).kl_divergence(q)[0]
+                want = A(ref.clone(o).kl_divergence(q))
+            elif int(q.R) == s.R:
+                qcls = type(q)
+                got = _wrap("V", lambda: jax.vmap(lambda S, m, S2, m2: cls(Sigma=S[None], mu=m[None]).kl_divergence(qcls(Sigma=S2[None], mu=m2[None]))[0])(o.Sigma, o.mu, q.Sigma, q.mu))
+                common.compare_value("C18.Vc.kl", "kl", A(got), A(ref.clone(o).kl_divergence(q)), step=i)
+                n += 1
+                continue
+            else:
+                continue
+        else:
+            continue
+        got = _wrap("V", lambda: jax.vmap(f)(*params))
+        common.compare_value("C18.Vc." + name, name, A(got), want, step=i, observer=name)
+        n += 1
     return n
 
 
